@@ -1,6 +1,6 @@
 SPECIFICATION Spec
 CONSTANTS
-  Elems = {1, 2, 3}
+  Elems = {1, 2}
   MaxLen = 4
   Idx <- IdxThorough
   Obs <- ObsEmit
